@@ -1,4 +1,4 @@
-CONSTANTS Tasks = {t1, t2}  MaxOps = 3  YieldSet = TRUE  TSO = FALSE  Bug = "none"  RelPlain = FALSE  Nb0 = 7  EnvNb = FALSE  WordMod = 3
+CONSTANTS Tasks = {t1, t2}  MaxOps = 3  YieldSet = TRUE  TSO = FALSE  Bug = "none"  RelPlain = FALSE  Nb0 = 7  EnvNb = FALSE  AttOverride = 9  TrackYield = FALSE  Stray = TRUE  WordMod = 3
 CONSTANT Prog <- ExtractedProg  EntryAcq <- ExtractedEntryAcq  EntryTry <- ExtractedEntryTry  EntryRel <- ExtractedEntryRel
 SPECIFICATION Spec
 INVARIANT MutualExclusion
@@ -7,5 +7,6 @@ INVARIANT Visibility
 INVARIANT EntrySeesAll
 INVARIANT NoWildAccess
 INVARIANT NeighbourIntact
+INVARIANT YieldBound
 CHECK_DEADLOCK FALSE
 SYMMETRY Symm
